@@ -103,11 +103,23 @@ func decode(fl flavour, s string, typ reflect.Type) (reflect.Value, error) {
 		if err != nil {
 			return ptr, err
 		}
-		pr, ok := qr["p"]
+		// as generated DecodeQueryParams implementations do: the parameter is a field of the query-params record
+		u, ok := ptr.Interface().(restlicodec.Unmarshaler)
 		if !ok {
-			return ptr, fmt.Errorf("parameter p lost")
+			return ptr, fmt.Errorf("%s is not an Unmarshaler", typ)
 		}
-		r = pr
+		seen := false
+		err = qr.ReadRecord(restlicodec.NewRequiredFields().Add("p"), func(r restlicodec.Reader, field string) error {
+			if field == "p" {
+				seen = true
+				return u.UnmarshalRestLi(r)
+			}
+			return r.Skip()
+		})
+		if err == nil && !seen {
+			err = fmt.Errorf("parameter p lost")
+		}
+		return ptr, err
 	} else {
 		r, err = fl.reader(s)
 		if err != nil {
@@ -346,6 +358,9 @@ func main() {
 		return
 	case "c11":
 		runC11(*in, b)
+		return
+	case "c06":
+		runC06(*in, reserved, b)
 		return
 	}
 	f, err := os.Open(*in)
